@@ -183,8 +183,14 @@ func New25(cfg C25Config) *S25 {
 	if !cfg.Core {
 		// shrinking so far that the scaled trusting period truncates to zero: the upgraded client cannot be valid
 		s.plans = append(s.plans, &UpPlan{Name: "next-revision/unbonding-1ns", ChainID: "virt-2", NewHeight: clienttypes.NewHeight(2, 1), Unbonding: 1})
-		// not a multiple: 10000 s * 20000.000000007 s / 30000 s
-		s.plans = append(s.plans, &UpPlan{Name: "next-revision/unbonding-odd", ChainID: "virt-2", NewHeight: clienttypes.NewHeight(2, 1), Unbonding: 20000*time.Second + 7})
+		// not a multiple: 10000 s * 20000.000000008 s / 30000 s
+		s.plans = append(s.plans, &UpPlan{Name: "next-revision/unbonding-odd", ChainID: "virt-2", NewHeight: clienttypes.NewHeight(2, 1), Unbonding: 20000*time.Second + 8})
+	}
+	rounding := -1
+	if cfg.Thorough {
+		// 2e18 ns * 10 ns / 6666666666666666667 ns = 2.99999999999999999985: the 18-digit decimal division rounds it to 3
+		rounding = len(s.plans)
+		s.plans = append(s.plans, &UpPlan{Name: "next-revision/unbonding-10ns", ChainID: "virt-2", NewHeight: clienttypes.NewHeight(2, 1), Unbonding: 10})
 	}
 	add := func(d cdef) { s.defs = append(s.defs, d) }
 	// subjects
@@ -222,6 +228,11 @@ func New25(cfg C25Config) *S25 {
 	}
 	add(cdef{Name: "upgrade-subject-expired", Status: Expired, H: c25H, Plan: 0})
 	add(cdef{Name: "upgrade-subject-frozen", Status: FrozenS, H: c25H, Plan: 0})
+	if cfg.Thorough {
+		add(cdef{Name: "upgrade-subject/huge-periods", Status: Active, H: c25H, Plan: rounding, Mod: "huge"})
+		add(cdef{Name: "subject-frozen-short-trusting", Status: FrozenS, H: c25H, Plan: -1, Mod: "short"})
+		add(cdef{Name: "substitute-differs-trustlevel-and-drift", Status: Active, H: c25H + 2, Plan: -1, Mod: "trustlevel+drift"})
+	}
 	add(cdef{Name: "bystander", Status: Active, H: c25H, Plan: -1})
 	return s
 }
@@ -257,6 +268,12 @@ func (d cdef) params() CParams {
 		p.ChainID = "other-1"
 	case "allowflags":
 		p.Allow = true
+	case "huge":
+		p.Trusting, p.Unbonding = 2_000_000_000_000_000_000, 6_666_666_666_666_666_667
+	case "short":
+		p.Trusting = c25Short
+	case "trustlevel+drift":
+		p.TLn, p.TLd, p.Drift = 2, 3, 2*Drift
 	}
 	return p
 }
